@@ -67,7 +67,7 @@ def rand_outcome(rng):
 
 
 def rand_exec(rng, nops):
-    nc = rng.choice([1, 1, 2])
+    nc = rng.choice([1, 2, 2, 3])
     ops = ["pair %d" % c for c in range(1, nc + 1)]
     for _ in range(nops):
         c = rng.randint(1, nc)
@@ -79,10 +79,12 @@ def rand_exec(rng, nops):
             for _ in range(rng.randint(1, 4)):
                 k = rng.random()
                 cc = rng.randint(1, nc)
-                steps.append("O%d%s" % (cc, rand_outcome(rng)) if k < 0.55 else ("I%d" % cc if k < 0.8 else ("B%d%s" % (cc, rand_outcome(rng)) if k < 0.9 else "T")))
-            if rng.random() < 0.25:
-                ops.append("oncb " + rng.choice(["write %d %d %s" % (c, rng.randint(1, 6), rand_outcome(rng)), "suspend %d" % c,
-                                                 "resume %d" % c, "noread", "nop"]))
+                # A = everything the kernel reports in ONE poll batch (several clients ready together)
+                steps.append("O%d%s" % (cc, rand_outcome(rng)) if k < 0.45 else ("I%d" % cc if k < 0.65 else ("B%d%s" % (cc, rand_outcome(rng)) if k < 0.75 else ("A" if k < 0.9 else "T"))))
+            for _ in range(rng.choice([0, 0, 0, 1, 1, 2])):
+                oc = rng.randint(1, nc)       # callbacks act on any client, also on one whose event is still queued
+                ops.append("oncb " + rng.choice(["write %d %d %s" % (oc, rng.randint(1, 6), rand_outcome(rng)), "suspend %d" % oc,
+                                                 "resume %d" % oc, "noread", "nop"]))
             ops.append("run " + " ".join(steps))
         elif r < 0.63:
             ops.append("suspend %d" % c)
